@@ -31,7 +31,8 @@ THEOREMS = [
     "Lineno.shift", "Lineno.report_shift",
     "Lineno.report_invariant_under_move", "Lineno.report_by_current_module_wrong",
     "Lineno.consolidated_field_line_correct", "Lineno.reported_line_correct_consolidated_partial",
-    "Lineno.classifier_xref_on_first_line", "Lineno.classifier_xref_counterexample",
+    "Lineno.classifier_xref_line_correct_partial", "Lineno.classifier_xref_on_first_line_old",
+    "Lineno.classifier_xref_old_counterexample",
     "Lineno.inherited_report_in_source", "Lineno.inherited_report_independent",
     "Lineno.inherited_field_line_correct_partial", "Lineno.report_on_inheriting_object_wrong",
     "Lineno.converted_formats_in_range_partial", "Lineno.converted_formats_in_range_counterexample",
